@@ -6,8 +6,8 @@
 //! same data directory (doubles of the outside world re-created at the persisted time point) which
 //! checks the invariants right after the restart and after every further tick, and drives the
 //! honest workload to decide bounded progress.
-use crate::hist::{self, Ev, Run, SignMode};
-use crate::sim;
+use mon_agg::hist::{self, Ev, Run, SignMode};
+use mon_agg::sim;
 use mithril_common::entities::*;
 use mithril_common::StdResult;
 use serde_json::{json, Value};
